@@ -39,6 +39,10 @@ def ionN : Key := 110
 
 /-! ### adduct strings (over ASCII code points) -/
 
+/-- `sum(f(x) for x in l)` where `f` may raise -/
+def sumM {α} (f : α → Except Err Rat) (l : List α) : Except Err Rat :=
+  l.foldlM (fun acc x => do let v ← f x; pure (acc + v)) (0 : Rat)
+
 /-- `_pop_ion_count`: sign characters and digits, then the rest; `none` = fell off the end (Python returns None) -/
 def popIonCount (s : List Nat) : Option (Int × List Nat) := go s 1 []
 where go : List Nat → Int → List Nat → Option (Int × List Nat)
@@ -94,7 +98,7 @@ def adductMass (mono : Bool) (s : List Nat) : Except Err Rat := do
 /-- `_parse_charge_adducts_mass(str, None, monoisotopic)` -/
 def chargeAdductsMassStr (mono : Bool) (s : List Nat) : Except Err Rat :=
   if s = [43, 72, 43] then pure Gen.protonMass   -- '+H+'
-  else (splitComma s).foldlM (fun acc a => do let m ← adductMass mono a; pure (acc + m)) (0 : Rat)
+  else sumM (adductMass mono) (splitComma s)
 
 /-- `_parse_charge_adducts_mass` on a `Mod`/value: the value must be a string -/
 def chargeAdductsMass (mono : Bool) : ModVal → Except Err Rat
@@ -144,9 +148,6 @@ def adjustMz (m : Rat) (charge : Option Int) (precision : Option Int) : Rat :=
 
 /-! ### modification masses -/
 
-/-- `sum(f(x) for x in l)` where `f` may raise -/
-def sumM {α} (f : α → Except Err Rat) (l : List α) : Except Err Rat :=
-  l.foldlM (fun acc x => do let v ← f x; pure (acc + v)) (0 : Rat)
 
 /-- `mod_mass(Mod, monoisotopic)` = `mod_mass(val) * mult` -/
 def modMass (env : Env) (mono : Bool) (m : Mod) : Except Err Rat := do
